@@ -36,7 +36,7 @@ def run_rules( ctx, rule_ids ):
             continue
         try:
             res = spec['fn']( ctx )
-            if len( res.instances ) < spec['floor']:
+            if len( res.instances ) < spec['floor'] and not res.findings:
                 raise AnalysisError( 'rule %s examined %d instances, below its floor %d (anchors lost?)' % (
                     rid, len( res.instances ), spec['floor'] ))
             results[rid] = res
